@@ -167,7 +167,7 @@ pub fn diff(a: &Snap, b: &Snap) -> Vec<Change> {
     out
 }
 
-/// How a path walk first left a given directory (see `Resolved::escape`).
+/// How a path walk finally left a given directory (see `Resolved::escape`).
 #[derive(Clone, Debug, PartialEq, Eq)]
 pub enum Escape {
     /// `..` climbed out and no symbolic link had been traversed before
@@ -206,7 +206,7 @@ pub struct Resolved {
     /// resolution is undefined for the OS (loop, name too long, non-directory used as directory, NUL)
     pub undefined: Option<&'static str>,
     pub symlinks_traversed: usize,
-    /// first way the walk left `confine` (None: never left it); only meaningful with `resolve_in`
+    /// the way the walk left `confine` for good (None: never left it, or came back); only meaningful with `resolve_in`
     pub escape: Option<Escape>,
     /// the walk left `confine` at some point but the final location is inside again
     pub returned: bool,
@@ -253,14 +253,19 @@ pub fn resolve_in(abs: &Path, confine: Option<&Path>) -> Resolved {
         if comp == "." {
             continue;
         }
+        // an excursion that came back inside is over: `escape` describes the *final* way out only
+        // (a link recorded while `cur` was still inside keeps its classification: no out->in transition)
+        let prev_in = inside(&cur, confine);
         if comp == ".." {
-            let was_in = been_inside && inside(&cur, confine);
+            let was_in = been_inside && prev_in;
             cur.pop();
             if was_in && !inside(&cur, confine) {
                 ever_out = true;
                 if res.escape.is_none() {
                     res.escape = Some(if res.symlinks_traversed > 0 { Escape::DotDotAfterSymlink } else { Escape::DotDot });
                 }
+            } else if been_inside && !prev_in && inside(&cur, confine) {
+                res.escape = None;
             }
             continue;
         }
@@ -329,6 +334,9 @@ pub fn resolve_in(abs: &Path, confine: Option<&Path>) -> Resolved {
             }
         }
         if inside(&cur, confine) && confine.is_some() {
+            if been_inside && !prev_in {
+                res.escape = None;
+            }
             been_inside = true;
         } else if been_inside && !inside(&cur, confine) {
             ever_out = true;
